@@ -1118,7 +1118,7 @@ enum cc_stat cc_deque_iter_add(CC_DequeIter *iter, void *element)
  */
 enum cc_stat cc_deque_iter_replace(CC_DequeIter *iter, void *replacement, void **out)
 {
-    return cc_deque_replace_at(iter->deque, replacement, iter->index, out);
+    return cc_deque_replace_at(iter->deque, replacement, iter->index - 1, out);
 }
 
 /**
